@@ -422,7 +422,30 @@ func (g *gen) control(b *strings.Builder, body func(*strings.Builder)) {
 
 // zoneItem writes one construct of a known-deviation zone.
 func (g *gen) zoneItem(b *strings.Builder, parent string) {
-	switch g.n(0, 3, "zone") {
+	switch g.n(0, 4, "zone") {
+	case 4:
+		// foreign content: inside svg / math a browser's tree builder does not switch the tokenizer for title,
+		// style, script ... the way it does in HTML content, and CDATA sections exist; the engine knows none of this
+		root := g.pick("foreign", "svg", "math")
+		b.WriteString("<" + root + ">")
+		n := g.n(1, 3, "fitems")
+		for i := 0; i < n; i++ {
+			switch g.n(0, 4, "fk") {
+			case 0:
+				inner := g.pick("finner", "title", "textarea", "style", "desc")
+				b.WriteString("<" + inner + ">" + g.pick("ftext", "a", "<b>x</b>", "a<i>") + g.action(g.field("rcdata", "rcdata:"+inner), true) + "</" + inner + ">")
+			case 1:
+				b.WriteString("<![CDATA[" + g.pick("cdata", "x", "<b>y</b>", "a]]b") + "]]>")
+			case 2:
+				b.WriteString("<circle r=\"1\"/><path d=\"M0 0\"></path>")
+			case 3:
+				b.WriteString("<foreignObject><p>" + g.action(g.field("str", "text:p"), true) + "</p></foreignObject>")
+			default:
+				g.textChunk(b)
+			}
+		}
+		b.WriteString("</" + root + ">")
+		g.flag("zone:K-foreign")
 	case 0:
 		// title / textarea nested in an element that browsers tokenize as raw text but the engine does not model
 		outer := g.pick("rawouter", "iframe", "noscript", "xmp", "noembed", "noframes")
